@@ -1,8 +1,9 @@
 #!/bin/bash
-# Re-run every kept seeded change against its property's quick check (and thorough if
-# quick is silent). /repo is restored after each. Prints one line per seed.
+# Re-runs every kept seeded change against its property's quick check (and thorough if quick is
+# silent; SEED_THOROUGH=0 to skip, SEED_BUDGET=6m) without touching /repo. One line per run.
 cd /verif
 for d in seeded/C*/; do
-  id=$(basename $d); prop=${id%%-*}
-  SEED_THOROUGH=${SEED_THOROUGH:-1} SEED_BUDGET=${SEED_BUDGET:-6m} tools/seedtest.sh /verif/$d/patch.diff $prop 2>&1 | grep "rc=" | sed "s/^/$id: /"
+  id=$(basename $d)
+  prop=$(python3 -c "import json;print(json.load(open('$d/meta.json')).get('detected_by',{}).get('check','${id%%-*}'))" 2>/dev/null || echo ${id%%-*})
+  tools/seedrun.sh $id $prop 2>&1 | grep "rc="
 done
